@@ -142,6 +142,17 @@ def linear_form(mod, fn, expr, atoms, depth=0):
         if len(defs) == 1:
             return linear_form(mod, fn, defs[0].value, atoms, depth + 1)
         return None
+    if isinstance(expr, ast.Call) and isinstance(expr.func, ast.Attribute) and isinstance(expr.func.value, ast.Name) \
+            and expr.func.value.id == "self" and not expr.keywords:
+        # a small helper method: single `return <expr>`; substitute the arguments for its parameters
+        m = method_of(fn, expr.func.attr)
+        if m is not None:
+            body = [x for x in m.body if not (isinstance(x, ast.Expr) and isinstance(x.value, ast.Constant))]
+            params = [a.arg for a in m.args.args][1:]
+            if len(body) == 1 and isinstance(body[0], ast.Return) and body[0].value is not None and len(params) == len(expr.args):
+                sub = substitute(body[0].value, dict(zip(params, expr.args)))
+                return linear_form(mod, fn, sub, atoms, depth + 1)
+        return None
     if isinstance(expr, ast.Attribute) and isinstance(expr.value, ast.Name) and expr.value.id == "self":
         cls = fn
         while cls is not None and not isinstance(cls, ast.ClassDef):
@@ -158,3 +169,49 @@ def linear_form(mod, fn, expr, atoms, depth=0):
                         return forms[0]
         return None
     return None
+
+
+def method_of(fn, name):
+    cls = fn
+    while cls is not None and not isinstance(cls, ast.ClassDef):
+        cls = getattr(cls, "_parent", None)
+    if cls is None:
+        return None
+    for m in cls.body:
+        if isinstance(m, ast.FunctionDef) and m.name == name:
+            return m
+    return None
+
+
+def substitute(expr, mapping):
+    import copy
+
+    class Sub(ast.NodeTransformer):
+        def visit_Name(self, n):
+            if n.id in mapping and isinstance(n.ctx, ast.Load):
+                return copy.deepcopy(mapping[n.id])
+            return n
+    out = Sub().visit(copy.deepcopy(expr))
+    ast.fix_missing_locations(out)
+    return out
+
+
+def inlined_tests(fn):
+    """Compare nodes that decide the branches of `fn`: those written in fn itself and those inside single-return helper
+    methods (`self._helper(args)`) used in its tests, with the arguments substituted."""
+    out = []
+    for t in walk_no_nested(fn):
+        if isinstance(t, ast.Compare):
+            out.append(t)
+        if isinstance(t, ast.Call) and isinstance(t.func, ast.Attribute) and isinstance(t.func.value, ast.Name) and t.func.value.id == "self":
+            m = method_of(fn, t.func.attr)
+            if m is None:
+                continue
+            body = [x for x in m.body if not (isinstance(x, ast.Expr) and isinstance(x.value, ast.Constant))]
+            params = [a.arg for a in m.args.args][1:]
+            if len(body) == 1 and isinstance(body[0], ast.Return) and body[0].value is not None and len(params) == len(t.args):
+                sub = substitute(body[0].value, dict(zip(params, t.args)))
+                for c in ast.walk(sub):
+                    if isinstance(c, ast.Compare):
+                        out.append(c)
+    return out
